@@ -145,6 +145,14 @@ def build(key):
             toggle_set(t, v)
 
 
+class _LazyObjs(dict):
+    """the shared objects of one history, each built (with the construction toggles off, see build) at its first
+       use in the history"""
+    def __missing__(self, key):
+        self[key] = build(key)
+        return self[key]
+
+
 def convert(key, obj):
     """the public route to ConvertToPublic for the object kind"""
     if key.startswith("b44") or key.startswith("b49") or key.startswith("b84") or key.startswith("ev2") or key == "byron":
@@ -365,7 +373,7 @@ def execute(history, oracle=True, shared=None):
        None, mutation reports).  Mutators yield ["mut"]."""
     reset_toggles()
     del MUTATIONS[:]
-    objs = shared if shared is not None else {k: build(k) for k in BUILDERS}
+    objs = shared if shared is not None else _LazyObjs()     # each shared object is built when first used
     converted = set()
     res, fresh = [], []
     try:
@@ -786,10 +794,10 @@ def build_race_schedules(ctx, ops, nthreads=8):
         if n % 2 == 0:
             # explicit-language mnemonic rounds before the automatic-language ones (which load several word lists)
             ks.sort(key=lambda k: k.startswith("mn|") and (k.endswith("|None") or k.endswith("|shared")))
-        if ctx.quick and len(ks) > 260:
+        if ctx.quick and len(ks) > 220:
             mn = [k for k in ks if k.startswith("mn|")]
             rest = [k for k in ks if not k.startswith("mn|")]
-            ks = [k for k in ks if k in set(mn) | set(rng.sample(rest, 260 - min(260, len(mn))))]
+            ks = [k for k in ks if k in set(mn) | set(rng.sample(rest, 220 - min(220, len(mn))))]
         rounds = []
         for k in ks:
             if rng.random() < 0.5:
